@@ -94,15 +94,15 @@ def _post_init_tuple(ci: ClassInfo, attr: Optional[str]) -> Optional[List[Option
 
 def _flatten_lists(ctx, ci: ClassInfo) -> Tuple[Optional[List[Optional[str]]], Optional[List[Optional[str]]], str]:
     """(children field names, aux field names) returned by tree_flatten; None entries = not a plain self.<f>."""
-    fl = ci.methods.get("tree_flatten")
+    fl = ci.methods.get("tree_flatten") or ctx.p.lookup_method(ci.qualname, "tree_flatten")
     if fl is None:
         return None, None, "no tree_flatten"
-    from ..model import returned_values
+    from ..model import norm, returned_values
 
     class _R:      # uniform access to the returned expression
         def __init__(self, v):
             self.value = v
-    rets = [_R(v_) for _, v_ in returned_values(fl.node)]
+    rets = [_R(v_) for _, v_ in returned_values(norm(fl.node))]
     if len(rets) != 1 or not isinstance(rets[0].value, ast.Tuple) or len(rets[0].value.elts) != 2:
         raise AnalysisError(f"{ci.qualname}.tree_flatten: unmodelled return shape")
 
@@ -244,10 +244,11 @@ def _unflatten_slots(ctx, ci: ClassInfo, children: List, aux: List) -> Dict[str,
 def lat1(ctx):
     n = 0
     for ci in lattice_classes(ctx):
-        if "tree_flatten" not in ci.methods:
+        # the protocol methods may live in the class or in a base class it inherits them from
+        fl = ci.methods.get("tree_flatten") or ctx.p.lookup_method(ci.qualname, "tree_flatten")
+        if fl is None or fl.is_abstract:
             continue
         registered = any(d and d.endswith("register_pytree_node_class") for d in ci.decorators)
-        fl = ci.methods["tree_flatten"]
         if not registered:
             ctx.rep.note(f"{ci.qualname} defines tree_flatten but is not registered as a pytree")
             continue
@@ -469,12 +470,50 @@ def _row_major_comps(ext: List[Mono]):
     return comps, total
 
 
+def _alias_free(fn_node: ast.AST) -> ast.AST:
+    """copy of a method in which local aliases of fields (l_x = self.l_x; a, b = self.a, self.b -- bound once) are
+    replaced by the field and divmod(a, b) by (a // b, a % b): one spelling for the decode rules"""
+    import copy
+    node = copy.deepcopy(fn_node)
+    stores: Dict[str, int] = {}
+    for n in ast.walk(node):
+        if isinstance(n, ast.Name) and isinstance(n.ctx, ast.Store):
+            stores[n.id] = stores.get(n.id, 0) + 1
+    alias: Dict[str, ast.AST] = {}
+    for st in ast.walk(node):
+        if isinstance(st, ast.Assign) and len(st.targets) == 1:
+            t, v = st.targets[0], st.value
+            pairs = list(zip(t.elts, v.elts)) if isinstance(t, ast.Tuple) and isinstance(v, ast.Tuple) and \
+                len(t.elts) == len(v.elts) else [(t, v)]
+            for a, b in pairs:
+                if isinstance(a, ast.Name) and stores.get(a.id) == 1 and _self_attr(b) is not None:
+                    alias[a.id] = b
+
+    class Sub(ast.NodeTransformer):
+        def visit_Name(self, n):
+            if isinstance(n.ctx, ast.Load) and n.id in alias:
+                return copy.deepcopy(alias[n.id])
+            return n
+
+        def visit_Call(self, n):
+            self.generic_visit(n)
+            if isinstance(n.func, ast.Name) and n.func.id == "divmod" and len(n.args) == 2 and not n.keywords:
+                a, b = n.args
+                return ast.Tuple(elts=[ast.BinOp(left=a, op=ast.FloorDiv(), right=b),
+                                       ast.BinOp(left=copy.deepcopy(a), op=ast.Mod(), right=copy.deepcopy(b))], ctx=ast.Load())
+            return n
+
+    node = Sub().visit(node)
+    ast.fix_missing_locations(node)
+    return node
+
+
 def _sites_decode(ci: ClassInfo):
     """Find `self.sites = tuple([ (c0, c1, ..) for i in range(N) ])` in __post_init__."""
     post = ci.methods.get("__post_init__")
     if post is None:
         return None
-    for st in ast.walk(post.node):
+    for st in ast.walk(_alias_free(post.node)):
         if isinstance(st, ast.Assign) and any(_self_attr(t) == "sites" for t in st.targets):
             v = st.value
             if isinstance(v, ast.Call) and dotted(v.func) == "tuple" and v.args:
@@ -661,6 +700,41 @@ def _adjacency(ctx, ci, cam: FuncInfo, strides, comps, total):
     for st in ast.walk(cnode):
         if isinstance(st, ast.For) and isinstance(st.target, ast.Tuple):
             nb_vars = [e.id for e in st.target.elts if isinstance(e, ast.Name)]
+    # vectorised form: all neighbours of a site at once,  nq, nr = nbrs[:, 0], nbrs[:, 1]  (coordinate k = column k of the
+    # array returned by get_nearest_neighbors), bounds tested by a boolean mask, indices computed from nq[mask], nr[mask]
+    mask_guard: Dict[str, Dict[int, List[ast.Compare]]] = {}
+    if nb_vars is None:
+        nb_arrays = {t.id for a in ast.walk(cnode) if isinstance(a, ast.Assign) and any(n is pos_call for n in ast.walk(a.value))
+                     for t in a.targets if isinstance(t, ast.Name)}
+        cols: Dict[int, str] = {}
+        for st in ast.walk(cnode):
+            if isinstance(st, ast.Assign) and len(st.targets) == 1:
+                t, v = st.targets[0], st.value
+                pairs_ = list(zip(t.elts, v.elts)) if isinstance(t, ast.Tuple) and isinstance(v, ast.Tuple) and \
+                    len(t.elts) == len(v.elts) else [(t, v)]
+                for a, b in pairs_:
+                    if isinstance(a, ast.Name) and isinstance(b, ast.Subscript) and isinstance(b.value, ast.Name) and \
+                            b.value.id in nb_arrays and isinstance(b.slice, ast.Tuple) and len(b.slice.elts) == 2 and \
+                            isinstance(b.slice.elts[0], ast.Slice) and isinstance(b.slice.elts[1], ast.Constant) and \
+                            isinstance(b.slice.elts[1].value, int):
+                        cols[b.slice.elts[1].value] = a.id
+        if cols and sorted(cols) == list(range(len(comps))):
+            nb_vars = [cols[k] for k in range(len(comps))]
+            for st in ast.walk(cnode):
+                if isinstance(st, ast.Assign) and len(st.targets) == 1 and isinstance(st.targets[0], ast.Name):
+                    cmps = [c for c in ast.walk(st.value) if isinstance(c, ast.Compare)]
+                    if not cmps or not isinstance(st.value, (ast.BinOp, ast.Compare)):
+                        continue
+                    if any(isinstance(n, ast.BinOp) and not isinstance(n.op, ast.BitAnd) and
+                           not any(n is y for c in cmps for y in ast.walk(c)) for n in ast.walk(st.value)):
+                        continue          # the comparisons must be and-ed, nothing else
+                    per_axis: Dict[int, List[ast.Compare]] = {}
+                    for c in cmps:
+                        for k, nm in enumerate(nb_vars):
+                            if any(isinstance(n, ast.Name) and n.id == nm for n in ast.walk(c)):
+                                per_axis.setdefault(k, []).append(c)
+                    if per_axis:
+                        mask_guard[st.targets[0].id] = per_axis
     nb_name = None
     for st in ast.walk(cnode):
         if isinstance(st, ast.For) and isinstance(st.target, ast.Name) and st.target.id != site_loop_var:
@@ -680,11 +754,26 @@ def _adjacency(ctx, ci, cam: FuncInfo, strides, comps, total):
                         ctx.ob("LAT-3", f"{ci.qualname}.create_adjacency_matrix: {who} index "
                                f"'{st.targets[0].id}' = get_site_num", True, "computed by get_site_num itself",
                                cam, st.lineno)
+    def unmask(expr):
+        """nq[mask] -> nq for the neighbour coordinate arrays (the selection does not change which coordinate it is)"""
+        if not mask_guard or not nb_vars:
+            return expr
+        import copy
+
+        class U(ast.NodeTransformer):
+            def visit_Subscript(self, n):
+                self.generic_visit(n)
+                if isinstance(n.value, ast.Name) and n.value.id in nb_vars and isinstance(n.slice, ast.Name) and \
+                        n.slice.id in mask_guard:
+                    return n.value
+                return n
+        return U().visit(copy.deepcopy(expr))
+
     for nm, expr, line in idx_forms:
         for vars_, what in ((pos_vars, "site"), (nb_vars, "neighbour")):
             if not vars_:
                 continue
-            coeffs = _coeffs(expr, vars_, env)
+            coeffs = _coeffs(unmask(expr) if what == "neighbour" else expr, vars_, env)
             if coeffs is None:
                 continue
             want = {k: strides[k] for k in range(len(vars_))}
@@ -728,6 +817,28 @@ def _adjacency(ctx, ci, cam: FuncInfo, strides, comps, total):
                 ctx.ob("LAT-4", f"{ci.qualname}.create_adjacency_matrix: bounds test on axis {k}",
                        lo_ok and hi_ok,
                        f"`{ast.unparse(nd)}` must be 0 <= n < {extent[k]}", cam, nd.lineno)
+    # bounds tests written as a mask:  (0 <= nq) & (nq < height) & ...  -- one lower and one upper test per axis
+    mask_ok: Dict[str, Dict[int, bool]] = {}
+    for mname, per_axis in mask_guard.items():
+        mask_ok[mname] = {}
+        for k, cs in per_axis.items():
+            if k not in extent:
+                continue
+            lo_ok = hi_ok = False
+            for c in cs:
+                if len(c.ops) != 1:
+                    continue
+                l_, op_, r_ = c.left, c.ops[0], c.comparators[0]
+                is_v = lambda n: isinstance(n, ast.Name) and n.id == nb_vars[k]
+                is_0 = lambda n: isinstance(n, ast.Constant) and n.value == 0
+                if (is_0(l_) and isinstance(op_, ast.LtE) and is_v(r_)) or (is_v(l_) and isinstance(op_, ast.GtE) and is_0(r_)):
+                    lo_ok = True
+                if (is_v(l_) and isinstance(op_, ast.Lt) and _mono(r_, env) == extent[k]) or \
+                        (is_v(r_) and isinstance(op_, ast.Gt) and _mono(l_, env) == extent[k]):
+                    hi_ok = True
+            mask_ok[mname][k] = lo_ok and hi_ok
+            ctx.ob("LAT-4", f"{ci.qualname}.create_adjacency_matrix: bounds test on axis {k}", lo_ok and hi_ok,
+                   f"mask `{mname}` must contain 0 <= n and n < {extent[k]} for coordinate {k}", cam, cs[0].lineno)
     # which axes are tested on the path to every adjacency store
     guarded: Dict[int, bool] = {}
     store_nodes = [st for st in ast.walk(cnode) if isinstance(st, ast.Assign) and
@@ -755,6 +866,18 @@ def _adjacency(ctx, ci, cam: FuncInfo, strides, comps, total):
     for k, cmps in tested.items():
         guarded[k] = bool(store_nodes) and all(
             any(any(n is c for n in ast.walk(tst)) for tst in dominating_tests(sn) for c in cmps) for sn in store_nodes)
+    # mask form: coordinate k is guarded when every use of its array outside the mask definitions selects with a mask
+    # that tests it
+    if mask_ok and nb_vars:
+        in_mask_defs = {id(n) for st in ast.walk(cnode) if isinstance(st, ast.Assign) and len(st.targets) == 1 and
+                        isinstance(st.targets[0], ast.Name) and st.targets[0].id in mask_guard for n in ast.walk(st.value)}
+        for k, nm in enumerate(nb_vars):
+            uses = [n for n in ast.walk(cnode) if isinstance(n, ast.Name) and n.id == nm and isinstance(n.ctx, ast.Load)
+                    and id(n) not in in_mask_defs]
+            selected = [n for n in ast.walk(cnode) if isinstance(n, ast.Subscript) and isinstance(n.value, ast.Name) and
+                        n.value.id == nm and isinstance(n.slice, ast.Name) and mask_ok.get(n.slice.id, {}).get(k)]
+            if uses and len(selected) == len(uses) and not guarded.get(k):
+                guarded[k] = True
     _ADJ_GUARDED[ci.qualname] = guarded
 
 
